@@ -89,26 +89,21 @@ func CheckC11(r *Report) {
 	r.Rule = "E3 scorespace: every scoring method (v2: 3, v3: 3, v4: 1) on every v2 assignment, every v3 effective class (canonical and all-overridden representations) and every v4 effective class (canonical, all-overridden, supplemental defined): no panic, finite, == float64(k)/10 with 0<=k<=100 (v2 environmental: k<=100 only, per the property's exception), Rating accepts it (3.0/3.1/4.0); distinct = distinct objects scored"
 	var vals Counter
 	var states Counter
-	bad := func(ver *spec.Version) func(a spec.Assignment, why string) {
-		return func(a spec.Assignment, why string) {
-			r.Violation(Case{Kind: "score-format", Key: "v" + ver.Name + "/cannot-build", Expected: "object built by Set", Observed: why, Args: map[string]any{"version": ver.Name, "vector": ver.Full(a)}}, nil)
-		}
-	}
 	d20 := allDims(spec.V2)
 	Iterate(I20, d20, v2zero(), 16, func(idx int, a spec.Assignment, o *gocvss20.CVSS20) {
 		states.Add(idx, 1)
 		c11Scores(r, I20, a, o, nil, idx, &vals, &iterCtx{d20, v2zero(), idx})
-	}, bad(spec.V2), r.TooMany)
+	}, iterBad(r, I20, d20, v2zero(), "score-format"), r.TooMany)
 	d30 := v3ClassDims(spec.V30)
 	Iterate(I30, d30, v3bg(spec.V30), 16, func(idx int, a spec.Assignment, o *gocvss30.CVSS30) {
 		states.Add(idx, 1)
 		c11Scores(r, I30, a, o, gocvss30.Rating, idx, &vals, &iterCtx{d30, v3bg(spec.V30), idx})
-	}, bad(spec.V30), r.TooMany)
+	}, iterBad(r, I30, d30, v3bg(spec.V30), "score-format"), r.TooMany)
 	d31 := v3ClassDims(spec.V31)
 	Iterate(I31, d31, v3bg(spec.V31), 16, func(idx int, a spec.Assignment, o *gocvss31.CVSS31) {
 		states.Add(idx, 1)
 		c11Scores(r, I31, a, o, gocvss31.Rating, idx, &vals, &iterCtx{d31, v3bg(spec.V31), idx})
-	}, bad(spec.V31), r.TooMany)
+	}, iterBad(r, I31, d31, v3bg(spec.V31), "score-format"), r.TooMany)
 	rots := []int{1}
 	if thorough {
 		rots = []int{0, 1, 2}
@@ -335,7 +330,7 @@ func monoSweep[T comparable, P Object[T]](r *Report, im *Impl[T, P], ms []int, b
 			}
 			tables[k][idx] = int16(t)
 		}
-	}, func(a spec.Assignment, why string) {}, r.TooMany)
+	}, func(idx int, a spec.Assignment, why string) {}, r.TooMany)
 	chunk := 1 << 14
 	nch := (n + chunk - 1) / chunk
 	Parallel(nch, 16, func(ci int) {
